@@ -825,6 +825,10 @@ func (o *FilterOptimizer) unionPrefixAndRange(prefix, srange *ScanType) *ScanTyp
 		if rend != nil && bytes.HasPrefix(rend, pstart) {
 			// | RS | PS | RE | PE
 			// just use RANGE scan from range start to end
+			if rstart == nil {
+				// no bound is left
+				return &ScanType{FULL, nil}
+			}
 			return &ScanType{RANGE, [][]byte{rstart, nil}}
 		} else if rend == nil {
 			// | RS | PS | PE | RE$ |
@@ -853,6 +857,10 @@ func (o *FilterOptimizer) unionPrefixAndRange(prefix, srange *ScanType) *ScanTyp
 		} else if rend != nil && bytes.Compare(rend, pstart) < 0 {
 			// | RS | RE | PS | PE |
 			// just scan RS -> nil
+			if rstart == nil {
+				// no bound is left
+				return &ScanType{FULL, nil}
+			}
 			return &ScanType{RANGE, [][]byte{rstart, nil}}
 		}
 	}
